@@ -197,8 +197,8 @@ def _gen_ops(rng, tier, profile, n_geos):
       enabled.add('mutate_snapshot')
   else:
     n_steps = rng.randrange(6, 17 if tier == 'quick' else 31)
-    w = {'q': 30, 'dwc': 8, 'list_t': 6, 'list_c': 6, 'open': 8, 'step': 14,
-         'close': 3, 'exhaustive': 5, 'greedy': 8, 'results': 14}
+    w = {'q': 30, 'dwc': 8, 'list_t': 6, 'list_c': 6, 'open': 10, 'step': 22,
+         'close': 2, 'exhaustive': 5, 'greedy': 8, 'results': 14}
     enabled = set()
     if profile == 'faults':
       for f in FAULT_KINDS:
@@ -444,9 +444,16 @@ def _call(mm, op, res):
 
 
 def _open(mm, res):
+  # iter(): a listing is consumed step by step whatever iterable it is
   if res['kind'] == 't':
-    return mm.treatment_group_generator(res['n'])
-  return mm.control_group_generator(set(res['t']))
+    return iter(mm.treatment_group_generator(res['n']))
+  return iter(mm.control_group_generator(set(res['t'])))
+
+
+def _close(gen):
+  close = getattr(gen, 'close', None)
+  if close is not None:
+    close()
 
 
 def _outcome(fn):
@@ -765,7 +772,7 @@ def execute(desc):
         lst = listings.pop(op['lid'], None)
         if lst is not None:
           if kind == 'close':
-            lst['gen'].close()
+            _close(lst['gen'])
           else:
             if lst['pos'] > 0:
               probe('listing_abandoned_midway')
@@ -997,7 +1004,7 @@ def execute(desc):
     heapdict_mod.HeapDict.push = orig_push
     for lst in listings.values():
       try:
-        lst['gen'].close()
+        _close(lst['gen'])
       except Exception:  # pylint: disable=broad-except
         pass
 
